@@ -46,6 +46,8 @@ RULE = (
     " outside ASCII) each in front of a valid notification; six callback shapes in rotation ("
     "async function, lambda returning the coroutine, object with async __call__, bound method"
     ", partials)."
+    " One sequence in four runs on a loop with asyncio.eager_task_factory; Trap.source is rec"
+    "orded as the callback sees it when called."
 )
 ASSUMPTIONS = [
     "garbage is generated without the octet 0x80 (the indefinite-length spin of the external BER library belongs to C20 and would hang the listener)",
